@@ -129,13 +129,40 @@ type lexKind struct {
 	strType  string
 }
 
+// a lexer with nested states (strings with interpolation), for properties of live lexers of one definition
+func nestedDef() *lexer.StatefulDefinition {
+	return lexer.MustStateful(lexer.Rules{
+		"Root": {
+			{Name: "Ident", Pattern: `[a-zA-Z]+`},
+			{Name: "Int", Pattern: `[0-9]+`},
+			{Name: "DQ", Pattern: `"`, Action: lexer.Push("InD")},
+			{Name: "SQ", Pattern: `'`, Action: lexer.Push("InS")},
+			{Name: "Punct", Pattern: `;`},
+			{Name: "Close", Pattern: `\}`, Action: lexer.Pop()},
+			{Name: "Space", Pattern: `[ \n]+`},
+			{Name: "Comment", Pattern: `#[^\n]*`},
+		},
+		"InD": {
+			{Name: "DQEnd", Pattern: `"`, Action: lexer.Pop()},
+			{Name: "Interp", Pattern: `\{`, Action: lexer.Push("Root")},
+			{Name: "Str", Pattern: `[^"{]+`},
+		},
+		"InS": {
+			{Name: "SQEnd", Pattern: `'`, Action: lexer.Pop()},
+			{Name: "Chars", Pattern: `[^']+`},
+		},
+	})
+}
+
 func lexKinds() []lexKind {
 	st := statefulDef()
+	nd := nestedDef()
 	alphaS := []string{"a", "b", "c", " ", "#", "\n", ";", "\"", "1", "$"}
 	return []lexKind{
 		{"text/scanner", func() lexer.Definition { return lexer.TextScannerLexer }, []string{"a", "b", "c", " ", "/", "\n", ";", "\"", "1", "\xff"}, []string{"Comment"}, "String"},
 		{"stateful", func() lexer.Definition { return st }, alphaS, []string{"Space", "Comment"}, "Str"},
 		{"generated", func() lexer.Definition { return entrylex.EntryLexer }, alphaS, []string{"Space", "Comment"}, "Str"},
+		{"stateful-nested-states", func() lexer.Definition { return nd }, []string{"a", "\"", "'", "{", "}", " "}, []string{"Space", "Comment"}, "Str"},
 		{"stateful-wrapped-Lex", func() lexer.Definition { return &recDef{st, &recorder{}} }, alphaS, []string{"Space", "Comment"}, "Str"},
 		{"stateful-wrapped-LexString", func() lexer.Definition { return &recDefS{recDef{st, &recorder{}}} }, alphaS, []string{"Space", "Comment"}, "Str"},
 		{"generated-wrapped-LexBytes", func() lexer.Definition { return &recDefSB{recDefS{recDef{entrylex.EntryLexer, &recorder{}}}} }, alphaS, []string{"Space", "Comment"}, "Str"},
@@ -280,6 +307,7 @@ func runJob(w *hx.Worker, j job, maxLen int, only string) {
 		names = nil
 	}
 	ins := lexfam.Inputs(j.k.alphabet, maxLen)
+	nShort := len(ins)
 	// a few longer inputs that contain several token types at once (identifier, string, number, comment)
 	ins = append(ins, `a "b" c`, `"x" y`, `a "b`, `b 1 "c" a`, "a \"b\"\n c", `c "c" c`)
 	if j.k.name == "text/scanner" {
@@ -287,12 +315,21 @@ func runJob(w *hx.Worker, j job, maxLen int, only string) {
 	} else {
 		ins = append(ins, "a # x\n \"b\"", "a ; b # c")
 	}
-	for _, in := range ins {
+	for ii, in := range ins {
 		for _, fn := range []string{"", "f"} {
 			for _, at := range []bool{false, true} {
 				key := fmt.Sprintf("%s :: in=%q file=%q trailing=%v", desc, in, fn, at)
 				if only != "" && only != key {
 					continue
+				}
+				if ii >= nShort {
+					// the longer inputs are each given to a parser that has never parsed anything, so that the
+					// first call on a parser is compared with the later ones (the short inputs share one parser)
+					pan, msg := hx.Guard(func() { p, err = participle.Build[any](opts...) })
+					if pan || err != nil {
+						w.Violate(hx.Violation{Key: desc, Class: "build-failed", Detail: map[string]any{"err": fmt.Sprint(err), "panic": msg}})
+						return
+					}
 				}
 				w.Case(func() string { return key })
 				w.Count("evaluations", 1)
@@ -436,7 +473,7 @@ func runJob(w *hx.Worker, j job, maxLen int, only string) {
 	}
 	// a definition's Lex / LexString / LexBytes yield identical streams
 	if j.gi == 0 && j.os.name == "plain" && j.lk == 1 {
-		for _, in := range lexfam.Inputs(j.k.alphabet, maxLen) {
+		for _, in := range lexfam.Inputs(j.k.alphabet, maxLen+1) {
 			key := fmt.Sprintf("definition=%s :: in=%q", j.k.name, in)
 			w.Count("evaluations", 1)
 			type st struct {
@@ -500,6 +537,39 @@ func runJob(w *hx.Worker, j job, maxLen int, only string) {
 							if t.EOF() {
 								done[i] = true
 							}
+						}
+					}
+				}
+				// staggered: one lexer takes a single token, a second one is drained completely, the first continues
+				if l1, err := def.Lex("f", strings.NewReader(in)); err == nil {
+					if l2, err := def.Lex("f", strings.NewReader(in)); err == nil {
+						var s1, s2 string
+						stepN := func(l lexer.Lexer, n int, out *string) {
+							for k := 0; k < n; k++ {
+								var t lexer.Token
+								var err error
+								pan, msg := hx.Guard(func() { t, err = l.Next() })
+								if pan {
+									*out += "PANIC " + msg
+									return
+								}
+								if err != nil {
+									*out += "ERR " + err.Error()
+									return
+								}
+								*out += fmt.Sprintf("%d:%q@%d,", t.Type, t.Value, t.Pos.Offset)
+								if t.EOF() {
+									return
+								}
+							}
+						}
+						stepN(l1, 1, &s1)
+						stepN(l2, len(in)+3, &s2)
+						if !strings.Contains(s1, "ERR") && !strings.Contains(s1, "PANIC") && !strings.HasSuffix(s1, `""@`+fmt.Sprint(len(in))+",") {
+							stepN(l1, len(in)+3, &s1)
+						}
+						if s1 != s2 {
+							w.Violate(hx.Violation{Key: key, Class: "definition-lexers-interfere-or-alias", Detail: map[string]any{"staggered_first": s1, "drained_second": s2}})
 						}
 					}
 				}
